@@ -5,7 +5,7 @@ use std::{collections::BTreeMap, time::Duration};
 use mcutil::{json, Args, Report, Tier, Violation};
 
 use crate::{
-    explore::{self, bfs, history_json, Bounds, Phase, Snap, Spec, Step},
+    explore::{self, history_json, Bounds, Phase, Snap, Spec, Step},
     sys::{Config, ErrKind, Ev, LKind, Mode, Rec},
 };
 
@@ -523,7 +523,9 @@ fn mon_c06(snap: &Snap, timeout_s: u64, armed: &mut BTreeMap<String, u64>) -> Ve
     // a stop that came in as a signal asks for a system stop: the server sleeps 300 ms before it resolves
     let by_signal = signal.is_some() && !snap.cmds.iter().any(|(k, _, _)| matches!(k, Ev::Stop(_)));
     let t_stop = snap.log.iter().zip(&snap.log_ms).find_map(|((_, _, r), ms)| if matches!(r, Rec::StopProcessed) { Some(*ms) } else { None }).unwrap_or(0);
-    if snap.server_done.is_none() && by_signal && workers_all_gone && snap.now_ms < t_stop + 300 {
+    let t_join = snap.log.iter().zip(&snap.log_ms).find_map(|((_, _, r), ms)| if matches!(r, Rec::AcceptJoin { .. }) { Some(*ms) } else { None });
+    let _ = t_stop;
+    if snap.server_done.is_none() && by_signal && t_join.map_or(false, |j| snap.now_ms < j + 300) {
         *armed.entry("quiescent_states_in_the_300ms_system_exit_delay".into()).or_insert(0) += 1;
         return out;
     }
@@ -1042,7 +1044,8 @@ pub fn run(args: &Args) -> i32 {
     let mut configs = vec![];
     let mut any_capped = false;
     for (i, spec) in specs.iter().enumerate() {
-        let (stats, found, machinery) = bfs(spec, args.threads, args.seed, per_spec_cap.max(Duration::from_secs(5)));
+        let keycheck = args.opt_usize("keycheck", args.tier.pick(200, 100)) as u64;
+        let (stats, found, machinery) = explore::bfs_opt(spec, args.threads, args.seed, per_spec_cap.max(Duration::from_secs(5)), keycheck);
         if !machinery.is_empty() {
             for m in &machinery {
                 eprintln!("MACHINERY-ERROR: {m}");
@@ -1057,7 +1060,7 @@ pub fn run(args: &Args) -> i32 {
             "config": spec.name(), "states": stats.states, "transitions": stats.transitions, "executions": stats.executions,
             "nested_transitions": stats.nested_transitions, "discarded_nested_plans": stats.invalid_nested,
             "quiescent_states": stats.quiescent_states, "max_depth": stats.max_depth, "capped": stats.capped,
-            "monitor_armed": stats.armed, "replay_determinism_checks": stats.replay_checks, "distinct_dispatch_logs": stats.distinct_dispatch_logs,
+            "monitor_armed": stats.armed, "replay_determinism_checks": stats.replay_checks, "key_differential_checks": stats.key_checks, "distinct_dispatch_logs": stats.distinct_dispatch_logs,
         }));
         if let Some(h) = &stats.longest {
             if i == 0 {
@@ -1072,6 +1075,26 @@ pub fn run(args: &Args) -> i32 {
             });
         }
         println!("  config {:<70} states={} transitions={} executions={} capped={}", spec.name(), stats.states, stats.transitions, stats.executions, stats.capped);
+    }
+    // end-to-end conformance layer: the same outcomes on the un-intercepted server (real threads, real time)
+    if args.opt_usize("e2e", 1) == 1 {
+        let mut n_obs = 0;
+        let mut names = vec![];
+        for r in crate::e2e::scenarios_for(prop) {
+            n_obs += r.observations.len();
+            names.push(r.name);
+            let mm = r.mismatches();
+            if !mm.is_empty() {
+                rep.violation(Violation {
+                    signature: format!("{prop}:e2e:{}", r.name),
+                    summary: format!("un-intercepted server (real threads): {}", mm.join("; ")),
+                    replay: json!({"engine": "srvmc", "kind": "e2e", "scenario": r.name, "observations": r.observations.iter().map(|(w, e, o)| json!({"what": w, "expected": e, "observed": o})).collect::<Vec<_>>()}),
+                });
+            }
+        }
+        rep.set("e2e_traces", names.len());
+        rep.set("e2e_observations", n_obs);
+        rep.set("e2e_scenarios", serde_json::Value::Array(names.into_iter().map(|n| json!(n)).collect()));
     }
     rep.set("states", total_states);
     rep.set("transitions", total_tr);
@@ -1158,6 +1181,18 @@ fn parse_history(v: &serde_json::Value) -> Vec<Step> {
 
 fn replay(args: &Args, prop: &'static str, path: &std::path::Path, mut rep: Report) -> i32 {
     let r = mcutil::load_replay(path);
+    if r["kind"] == "e2e" {
+        for res in crate::e2e::scenarios_for(prop) {
+            for (w, e, o) in &res.observations {
+                println!("  [{}] {w}: expected {e}, observed {o}", res.name);
+            }
+            let mm = res.mismatches();
+            if !mm.is_empty() {
+                rep.violation(Violation { signature: format!("{prop}:e2e:{}", res.name), summary: mm.join("; "), replay: r.clone() });
+            }
+        }
+        return rep.finish();
+    }
     if r["kind"] == "availability-differential" {
         availability_differential(&mut rep);
         return rep.finish();
